@@ -858,6 +858,21 @@ func c08Assertions(r *core.Report, fns []*core.Func) {
 								tainted = true
 							}
 						}
+						// not reachable at all in the build that is analysed: the node lies behind a test of a repository
+						// function that returns a constant (txstatus.IsEnabled() without the ffi tag) taken the other way
+						for _, fct := range g.FactsAt(nd) {
+							if c, isCall := core.Unparen(fct.Expr).(*ast.CallExpr); isCall && fct.Tag == nil {
+								if fo := core.Callee(info, c); fo != nil {
+									if h := p.ByObj[fo.Origin()]; h != nil && h.Body != nil && len(h.Body.List) == 1 {
+										if rs, isRet := h.Body.List[0].(*ast.ReturnStmt); isRet && len(rs.Results) == 1 {
+											if b, isC := boolConst(h.Pkg.TypesInfo, rs.Results[0]); isC && b != fct.Truth {
+												tainted = false
+											}
+										}
+									}
+								}
+							}
+						}
 						key := fmt.Sprintf("%s#panic@%s", f.Key, core.Trunc(core.KeyStr(f, x), 40))
 						r.Check(!tainted, rule, key, pos(r, x), "explicit panic is not guarded by a request-derived condition", "explicit panic reachable under a request-derived condition")
 					}
